@@ -162,8 +162,13 @@ CLAIMED = {
              "is in the channel (no spurious wake-up), some step is always enabled while anything is left to print, and a message in "
              "the channel is shown by the editor's next step or announced by its sender's next step; (b) the editor model: showing a "
              "message leaves text, cursor, undo stack and history untouched and writes the message whole, after clearing the old "
-             "rows, followed by a full redraw. PARTIAL: the protocol model is tied to the code by the oracle on real runs only "
-             "(sampled schedules); the redraw bytes are compared with the implementation byte for byte.",
+             "rows, followed by a full redraw; over WHOLE READS, for every input, mode, helper and binding: a raw read (a character "
+             "of a key sequence, of an incremental search, of a completion) leaves every pending message where it is, and the "
+             "messages still pending when the read returns are a suffix of those pending when it started -- the others were "
+             "taken off the front, in order, by the main loop's wait, the only place that takes one and shows it. PARTIAL: the "
+             "protocol model is tied to the code by the oracle on real runs only (sampled schedules); the message handling of "
+             "the editor model -- messages inside sub-loops, after the last read, with late printers included -- is compared "
+             "with the implementation byte for byte.",
         note=TTY_NOTE + "Thread schedules below the protocol steps, and racing with the start/end of a read, are sampled.",
         technique="Coq proof: invariant over an inductively defined step relation (all interleavings), progress by case analysis; editor-side by the keeps-calculus; extracted-model differential check of the message redraw through a pty + exactly-once/order oracle with an independent emulator"),
     "C20": dict(
